@@ -281,6 +281,13 @@ def generate(outdir, seed, npairs):
             continue
         seen.add((a.cpp, b.cpp))
         pairs.append((a, b, rule, exp))
+    # systematic family: vector<E> ~ logical buffer of E[N] for every size-member shape (documented pair)
+    for en in ["u8", "u16", "u32", "u64", "i32", "string", "double"]:
+        for sz, n in [("u8", 100), ("u8", 255), ("i8", 100), ("u16", 300), ("int", 100), ("size_t", 3), ("i16", 130), ("u32", 7)]:
+            if rng.random() < (0.35 if npairs < 300 else 0.9):
+                a = tg.vec(P(en)); b = tg.wrapper(tg.LBuf(P(en), n, P(sz), std_array=rng.random() < 0.5))
+                if (a.cpp, b.cpp) not in seen:
+                    seen.add((a.cpp, b.cpp)); pairs.append((a, b, "logical buffer ~ vector", True))
     # a few reflexive rows and documented literal pairs
     types, idx = [], {}
     for (a, b, rule, exp) in pairs:
